@@ -38,7 +38,7 @@ Proof.
   assert (Hbits' : (match fixed with Some b => Ok b | None => operand_storing_width (OReg rt') end) = Ok (8 * Z.of_nat n))
     by (destruct fixed; cbn [operand_storing_width]; congruence).
   rewrite Hbits'. cbn [bind operand_store].
-  destruct (exec_load s st 38%N (8 * Z.of_nat n) _ A n data He ltac:(lia) ltac:(lia) eq_refl DA A_range Hm Hrd) as (st1 & E1 & He1 & G1).
+  destruct (exec_load s st 70%N (8 * Z.of_nat n) _ A n data He ltac:(lia) ltac:(lia) eq_refl DA A_range Hm Hrd) as (st1 & E1 & He1 & G1).
   assert (Dt : den (st_env st1) (EScalar (s_temp0 (8 * Z.of_nat n))) = Ok (mkc (8 * Z.of_nat n) data))
     by (apply den_scalar_get; [exact G1|reflexivity]).
   destruct (reg_set_sim_w s st1 rt' (EScalar (s_temp0 (8 * Z.of_nat n))) (8 * Z.of_nat n) data He1 Hrt ltac:(lia) eq_refl Dt)
@@ -73,7 +73,7 @@ Proof.
   rewrite Hck. cbn [bind]. rewrite MA. cbn [bind fst snd].
   rewrite mk_ext_ok by (cbn [e_bits s_temp0 sbits]; lia). cbn [unwrap bind operand_store].
   subst width.
-  destruct (exec_load s st 38%N (8 * Z.of_nat n) _ A n data He ltac:(lia) ltac:(lia) eq_refl DA A_range Hm Hrd) as (st1 & E1 & He1 & G1).
+  destruct (exec_load s st 70%N (8 * Z.of_nat n) _ A n data He ltac:(lia) ltac:(lia) eq_refl DA A_range Hm Hrd) as (st1 & E1 & He1 & G1).
   assert (Dt : den (st_env st1) (EExt Sext (reg_bits rt') (EScalar (s_temp0 (8 * Z.of_nat n)))) = Ok (mkc (reg_bits rt') v)).
   { rewrite (den_ext _ _ _ _ (mkc (8 * Z.of_nat n) data)) by (apply den_scalar_get; [exact G1|reflexivity]).
     cbn [sp_ext cbits cval]. destruct (Z.leb_spec (reg_bits rt') (8 * Z.of_nat n)); [lia|reflexivity]. }
